@@ -1,13 +1,13 @@
 package props
 
 import (
-	"time"
 	"context"
 	"encoding/json"
 	"fmt"
 	"hash/fnv"
 	"strings"
 	"testing"
+	"time"
 
 	"github.com/high-moctane/mocrelay"
 	"github.com/high-moctane/mocrelay/verifsim"
@@ -26,10 +26,10 @@ type mEmit struct {
 }
 
 type mChild struct {
-	Style  string    `json:"style"` // seq | async
+	Style  string    `json:"style"`         // seq | async
 	Lag    int       `json:"lag,omitempty"` // milliseconds of simulated time before each emission (a slow child)
-	Reqs   [][]mEmit `json:"reqs"`  // emissions for the k-th REQ this child receives
-	OKs    []int     `json:"oks"`   // verdict for the k-th EVENT: 0 accept, 1.. reject with reason r<child>.<n>
+	Reqs   [][]mEmit `json:"reqs"`          // emissions for the k-th REQ this child receives
+	OKs    []int     `json:"oks"`           // verdict for the k-th EVENT: 0 accept, 1.. reject with reason r<child>.<n>
 	Counts []int     `json:"counts"`
 }
 
@@ -92,9 +92,9 @@ func (mergeEngine) Gen(t *rapid.T, tier string) any {
 	nops := rapid.IntRange(1, maxOps).Draw(t, "nops")
 	nReq, nEv, nCnt := 0, 0, 0
 	subN := 0
-	open := map[string]bool{}  // sub ids with a REQ outstanding whose EOSE has not been awaited
-	eoseN := map[string]int{}  // number of EOSE awaited per sub id
-	reqN := map[string]int{}   // REQs issued per sub id
+	open := map[string]bool{} // sub ids with a REQ outstanding whose EOSE has not been awaited
+	eoseN := map[string]int{} // number of EOSE awaited per sub id
+	reqN := map[string]int{}  // REQs issued per sub id
 	evUsed := map[int]bool{}
 	for i := 0; i < nops; i++ {
 		switch k := rapid.IntRange(0, 11).Draw(t, "opk"); {
@@ -263,7 +263,7 @@ type mStub struct {
 	recs  []*mRec
 	byMsg map[mocrelay.ServerMsg]*mRec
 	// reception stamps
-	gotClose map[string][]int64
+	gotClose        map[string][]int64
 	nReq, nEv, nCnt int
 }
 
@@ -493,12 +493,12 @@ func (mergeEngine) Exec(t *testing.T, cc any) *simrt.Result {
 }
 
 type mInc struct {
-	idx     int
-	sub     string
-	filters []*mocrelay.ReqFilter
-	sent    *simrt.Sent
-	end     int64 // CLOSE / re-REQ of the same id sent (inf: never)
-	closed  bool  // a CLOSE for it was sent
+	idx      int
+	sub      string
+	filters  []*mocrelay.ReqFilter
+	sent     *simrt.Sent
+	end      int64 // CLOSE / re-REQ of the same id sent (inf: never)
+	closed   bool  // a CLOSE for it was sent
 	closeAcc int64
 }
 
@@ -549,10 +549,10 @@ func mergeJudge(sim *simrt.Sim, c *MergeCase, cl *simrt.Client, stubs []*mStub, 
 	}
 	// ---- C08
 	type incState struct {
-		eoseAt   int64
-		eoseN    int
-		pre      []*mocrelay.ServerEventMsg
-		lastPos  map[int]int
+		eoseAt  int64
+		eoseN   int
+		pre     []*mocrelay.ServerEventMsg
+		lastPos map[int]int
 	}
 	is := make([]*incState, len(incs))
 	for i := range is {
